@@ -7,6 +7,7 @@ import (
 	"context"
 	"encoding/json"
 	"fmt"
+	"math/big"
 	"net/http"
 	"net/http/httptest"
 	"strings"
@@ -23,12 +24,27 @@ import (
 
 func c15World() (*vh.PoolWorld, *jsonrpc2.Server, *vh.Cast) { return c15WorldOn(vh.Memory) }
 
+// c15Tight: the pool is in a state where ordinary requests take their rare paths - a minimum balance
+// is configured, the client is one keep-alive away from it, one of its active peers has hung up
+var c15Tight bool
+
 func c15WorldOn(driver string) (*vh.PoolWorld, *jsonrpc2.Server, *vh.Cast) {
 	vsched.ResetClock(0)
 	cast := vh.StdCast()
-	pw := vh.NewPoolWorld(vh.PoolConfig{Driver: driver, WithdrawMin: big10("100")})
-	for _, e := range []string{"conn H1", "conn H2", "conn C1", "upd C1 H1", "link W1 C1", "tick 1s"} {
+	cfg := vh.PoolConfig{Driver: driver, WithdrawMin: big10("100")}
+	if c15Tight {
+		cfg.Price, cfg.Interval, cfg.MinBalance = big.NewInt(1), 1, big.NewInt(-5e9)
+	}
+	pw := vh.NewPoolWorld(cfg)
+	evs := []string{"conn H1", "conn H2", "conn C1", "upd C1 H1", "link W1 C1", "tick 1s"}
+	if c15Tight {
+		evs = []string{"conn H1", "conn H2", "conn C1", "upd C1 H1,H2", "link W1 C1", "tick 20s", "upd H1 -", "upd H2 -"}
+	}
+	for _, e := range evs {
 		vh.PoolEvent(pw, cast, e)
+	}
+	if c15Tight {
+		pw.Pool.CloseRemote(pw.Host(cast.ByName["H2"].Name).Service()) // H2 hung up; it is still an active peer of C1
 	}
 	srv := &jsonrpc2.Server{}
 	if err := vh.RegisterProd(srv, pw); err != nil {
@@ -146,8 +162,14 @@ func c15Feed(u *vh.U, srv *jsonrpc2.Server, text, id string, pingable bool) {
 	}
 	var resp *jsonrpc2.Message
 	ctx := vh.CtxWith(&vh.FakeHost{W: &vh.PoolWorld{}, Name: "hostile", Addr: "203.0.113.66:4000"})
-	if p := vh.Recover(func() { resp = srv.Handle(ctx, msg) }); p != "" {
-		u.Violate("hostile-request/panic", fmt.Sprintf("request %s: panic: %s", abbreviate(text), p), nil)
+	if p := vh.Recover(func() {
+		resp, _ = vh.Watched("request "+abbreviate(text), func() (*jsonrpc2.Message, error) { return srv.Handle(ctx, msg), nil })
+	}); p != "" {
+		cls := "panic"
+		if strings.Contains(p, "never returned") {
+			cls = "no-reply"
+		}
+		u.Violate("hostile-request/"+cls, fmt.Sprintf("request %s: %s", abbreviate(text), p), nil)
 		return
 	}
 	if prob := vh.ReplyProblem(id, resp); prob != "" {
@@ -181,11 +203,20 @@ func abbreviate(s string) string {
 func c15Signed(shard, nshards int) vh.Unit { return c15SignedOn(vh.Memory, shard, nshards) }
 
 func c15SignedOn(driver string, shard, nshards int) vh.Unit {
+	return c15SignedIn(driver, false, shard, nshards)
+}
+
+func c15SignedIn(driver string, tight bool, shard, nshards int) vh.Unit {
 	name := fmt.Sprintf("signed-hostile/%d", shard)
 	if driver != vh.Memory {
 		name = fmt.Sprintf("signed-hostile/%s/%d", driver, shard)
 	}
+	if tight {
+		name = fmt.Sprintf("signed-hostile/tight-pool/%s/%d", driver, shard)
+	}
 	return vh.Unit{Name: name, Run: func(u *vh.U) {
+		c15Tight = tight
+		defer func() { c15Tight = false }()
 		cast := vh.StdCast()
 		C, H, W := cast.ByName["C1"], cast.ByName["H2"], cast.ByName["W1"]
 		long := strings.Repeat("a", 70000)
@@ -251,6 +282,9 @@ func c15SignedOn(driver string, shard, nshards int) vh.Unit {
 		for i, c := range calls {
 			if i%nshards != shard {
 				continue
+			}
+			if u.Expired() {
+				return
 			}
 			pw, srv, _ := c15WorldOn(driver)
 			_ = pw
@@ -660,6 +694,9 @@ func init() {
 			}
 			for s := 0; s < 6; s++ {
 				us = append(us, c15Signed(s, 6), c15SignedOn(vh.Badger, s, 6))
+				if s < 3 {
+					us = append(us, c15SignedIn(vh.Memory, true, s, 3))
+				}
 			}
 			us = append(us, c15Envelopes(), c15Wire())
 			n := 4
